@@ -1537,3 +1537,64 @@ func init() {
 		}
 	})
 }
+
+func init() {
+	reg := registry["C04"]
+	reg.Meta.Rules["C04.8"] = "what the allocator hands out lies below its cursor: in every Allocator method that returns an address, the cursor it stores is at least the returned address plus the requested size (an aligned allocation that advances the cursor by the size only leaves the block's tail to the next caller)"
+	reg.Rules = append(reg.Rules, func(c *Ctx, r *Result) {
+		n := 0
+		for _, fn := range c.LibFuncs() {
+			if !strings.HasPrefix(c.Name(fn), "writer.Allocator.") || fn.Blocks == nil {
+				continue
+			}
+			var size *ssa.Parameter
+			for _, p := range fn.Params {
+				if strings.ToLower(p.Name()) == "size" && isIntType(p.Type()) {
+					size = p
+				}
+			}
+			res := fn.Signature.Results()
+			if size == nil || res.Len() != 2 || !isIntType(res.At(0).Type()) {
+				continue
+			}
+			var cursorStore *ssa.Store
+			for _, fs := range c.DirectFieldStores(fn) {
+				if fs.Fn == fn && fs.Key == "writer.Allocator.nextOffset" {
+					if st, ok := fs.In.(*ssa.Store); ok {
+						cursorStore = st
+					}
+				}
+			}
+			if cursorStore == nil {
+				continue
+			}
+			fb := c.FB(fn)
+			// every load of the cursor that happens before the store denotes the same (old) value
+			old := struct{ name string }{"old-cursor"}
+			norm := func(l Lin) Lin {
+				out := linConst(l.C)
+				for k, coef := range l.T {
+					if v, ok := k.(ssa.Value); ok {
+						if key, _ := fieldLoadKey(v); key == "writer.Allocator.nextOffset" {
+							if in, isIn := v.(ssa.Instruction); isIn && !canReach(cursorStore, in) {
+								out = out.add(linSym(old), coef)
+								continue
+							}
+						}
+					}
+					out = out.add(linSym(k), coef)
+				}
+				return out
+			}
+			for _, ret := range successReturns(fn) {
+				n++
+				goal := norm(fb.lin(cursorStore.Val)).add(norm(fb.lin(retOperand(ret, 0))), -1).add(fb.lin(size), -1)
+				ok := fb.prove(goal, fb.blockFacts(ret.Block()), 3)
+				r.Check(ok, "C04.8", c.Name(fn)+"#cursor-beyond-returned-block", c.InstrPos(cursorStore), "new cursor - (returned address + size) = "+fb.linString(goal)+" must be >= 0")
+			}
+		}
+		if n == 0 {
+			r.Undec("C04.8", "writer.Allocator#cursor", "", "no allocating method recognised")
+		}
+	})
+}
